@@ -346,6 +346,21 @@ HEAP_SESSIONS = [
 ]
 
 
+# Unscripted one-line programs in which a CLOSURE that reaches a heap binary only through a compound capture (a
+# tuple, a nested closure) crosses a process boundary - as a spawn capture, an argument, a message, an awaited
+# result (seeded change C06-4: remap_heap_indices skipped closures none of whose captures is directly a binary).
+# Judged by the state-based heap rules and by the expected final value (ContentPreserved).
+_K = "k = [0xaa, 0xbb] __binary_concat__, pair = [k, 7]"
+HEAP_PROGRAMS = [
+    _K + ", f = #{ pair }, p = @#{ f }, !p",
+    "p = @#{ " + _K + ", #{ pair } }, g = !p, g",
+    "p = @#{ !#(#[] -> ['bin, 'int]) =g, g }, " + _K + ", #{ pair } p, !p",
+    _K + ", f = #{ pair }, h = #{ [f, 1] }, p = @#{ h =t, t.0 =g, g }, !p",
+    _K + ", f = #{ pair }, p = &f @#(#[] -> ['bin, 'int]) { =g, g }, !p",
+]
+HEAP_PROGRAMS_EXPECT = T(B(170, 187), I(7))
+
+
 # ---------------------------------------------------------------- C13 refs: minted under every placement
 def ref_cases(nw=2):
     out = []
@@ -838,8 +853,8 @@ def fail_during_filter_effect(nw=2, deferred=True, failing=False):
     # a select lists an awaited process and a receive source whose FILTER calls an effect builtin; the awaited
     # process fails while the effect is in flight, so the awaiter is failed while parked in `effecting` inside
     # the filter, and the completion arrives for a process without frames (seeded change C15-3: the completion
-    # handler returned FrameUnderflow, which ends the worker's loop).  Effects issued from inside a filter body
-    # are outside the mechanism model: these runs are judged by the monitor only (no_l2).
+    # handler returned FrameUnderflow, which ends the worker's loop).  With `failing` the effect itself fails (a
+    # path that does not exist): whichever failure reaches the process first is the one it keeps (fix 34b580c).
     scripts = [[spawn(1, 2), spawn(2, 3, r(1)), send(2, c(I(5))), spawn(3, 4), select(4, aw(3)), select(5, aw(2), tmo(3)),
                 ret(r(4))],
                [select(1, tmo(1)), fail()],
@@ -850,7 +865,7 @@ def fail_during_filter_effect(nw=2, deferred=True, failing=False):
     if deferred:
         s["deferred_io"] = True
         s["iomodes"] = ["later"]
-    return meta(s, False, False, ["C15"], large=True, no_mc=True, no_l2=True)
+    return meta(s, False, False, ["C15"], large=True)
 
 
 def shared_failing_target(nw=2):
